@@ -12,6 +12,7 @@ import (
 	"bufio"
 	"bytes"
 	"fmt"
+	"runtime/debug"
 	"time"
 
 	"github.com/santhosh-tekuri/raft/log"
@@ -138,8 +139,8 @@ func (sr *simRepl) guard(fn func()) (died bool) {
 			func() {
 				defer func() {
 					if v2 := recover(); v2 != nil {
-						n.died = fmt.Sprintf("replication goroutine: %v", v2)
-						n.c.note(map[string]interface{}{"kind": "panic", "n": n.id, "text": n.died, "stack": ""})
+						n.died = "replication"
+						n.c.note(map[string]interface{}{"kind": "panic", "n": n.id, "text": fmt.Sprintf("replication goroutine: %v", v2), "stack": trimStack(string(debug.Stack()))})
 						n.kill()
 					}
 				}()
